@@ -3,7 +3,7 @@
 # and confirm + evaluate each (tools/seedcheck.py). Removes the agent's worktree afterwards.
 p=$1
 wt=${SEED_WT_PREFIX:-/tmp/wt_}$p
-for d in $wt/seeded_out/[mnpqr]*; do
+for d in $wt/seeded_out/[mnpqrs]*; do
   [ -f $d/patch.diff ] || continue
   n=$(basename $d)
   t=/verif/seeded/$p-$n
